@@ -1,1 +1,11 @@
-fn main(){}
+//! Checks for topology, cluster node, RESP server and client.
+
+mod breaker;
+mod topo;
+
+use vlib::Check;
+
+fn main() {
+    let checks: Vec<&dyn Check> = vec![&topo::C24, &topo::C13, &topo::C14, &breaker::C26];
+    vlib::main_entry(&checks)
+}
